@@ -85,6 +85,17 @@ CHECKS["C16"] = dict(
    note="'Any number of times' is exercised as two fresh runs and one repetition; per-file failure is read from the `Error building file:` diagnostics.",
    ref="DESIGN.md section 5 C16")
 
+CHECKS["C18"] = dict(
+   technique="property-based testing of the CLI with the harness-set environment as oracle",
+   text="Random environments (0..20 variables, arbitrary Unicode values) plus a planted secret are given to the real binary with a cleared environment; generated programs read set and unset names (bare and quoted selectors; top level, function, module, format expression, through a binding) in strict mode and with --no-strict; the JSON artifact must equal the value set, unset names must fail naming the variable (strict) or be null, no output may contain the secret or other variables' values; `let env` must be rejected and fields named env must resolve to the field.",
+   note="The JSON artifact is decoded with serde_json (its correctness is C03's subject).",
+   ref="DESIGN.md section 5 C18")
+CHECKS["C09"] = dict(
+   technique="property-based model-based testing of the CLI on generated project trees (path-resolution / evaluate-once / cycle model)",
+   text="Generated projects of 2..8 files in nested directories with random DAG or cyclic import graphs, import expressions at 13 syntactic positions and paths in several equivalent spellings are built by the real binary from four working directories / argument spellings; for DAGs the artifact must hold the sum the generator computed and stderr exactly one TRACE line per reachable file; for cyclic graphs every run must exit 1 with a cycle diagnostic, never crash or hang.",
+   note="'Evaluated once' is read off TRACE lines; a hang is only reported after the run exceeded 60 s three times in a row.",
+   ref="DESIGN.md section 5 C09")
+
 PENDING = {}
 
 def main():
